@@ -40,7 +40,7 @@ MINIMUMS = {
     "thorough": {"filter_evaluations": 600000, "op:=": 90000, "op:in": 90000, "op:not in": 90000, "op:~": 90000, "chains_mixed": 30000, "clean_cases": 5000, "orphan_cases": 4000, "dirs_deleted": 3000, "dirs_kept": 15000, "running_jobs_present": 2500, "linked_jobs_present": 800, "orphan_links_present": 500, "clean_cases_with_experiment": 2500},
 }
 N = {"quick": (32000, 1920), "thorough": (800000, 40000)}
-TIMEOUT = {"quick": 900, "thorough": 10800}
+TIMEOUT = {"quick": 2400, "thorough": 14400}
 
 TAGS = ["model", "mode", "lr", "x"]
 VALUES = ["bm25", "a", "b", "ab", "a b", "0.1", "RUNNING", "DONE", "x-y", "é", "", "0x1", "42", "d", "ddd"]  # the last four tell "\." from "." and "\d" from "d"
